@@ -352,7 +352,10 @@ PRED_FORMS = [("p", ("P", "ex", "p")), ("pa",), ("p", ("A", "http://e/p1")), ("p
 OBJ_FORMS = [("o", ("P", "ey", "o")), ("o", ("A", "http://e/o#f")), ("o", ("R", "o2")), ("ob", "b2"),
              ("l", "lit", ("-",)), ("l", "hola", ("@", "es")), ("l", "5", ("^", ("P", "xsd", "integer"))),
              ("l", "x", ("^", ("A", "http://e/dt"))), ("i", "42"),
-             ("l", "a #b; c, d. e", ("-",)), ("l", "q\\\"r\\\\s \\n", ("-",))]
+             ("l", "a #b; c, d. e", ("-",)), ("l", "q\\\"r\\\\s \\n", ("-",)),
+             # absolute IRIs whose scheme holds '+', '-', '.' (RFC 3986: ALPHA *( ALPHA / DIGIT / "+" / "-" / "." )),
+             # as a node and as a datatype, under the @base of fill_shape: taken as written, never resolved
+             ("o", ("A", "svn+ssh://h/r")), ("l", "1.2", ("^", ("A", "x-types:semver")))]
 
 SHAPES_1 = ["SPO.", "SPO,O.", "SPO;PO."]
 SHAPES_2 = ["SPO.SPO.", "SPO,O.SPO.", "SPO.SPO;PO."]
@@ -422,6 +425,9 @@ CMT_POOL = ["", " c", " a comment", " c # d", " say \"hi\"", " one \" quote", " 
 CMT_ADV = [" \" #x", "\"#", " a \" b\t#c", " \"a\" \"b\" #z", " \\\"", " say \\\"hi\\\""]
 GAPS = [" ", " ", " ", "  ", "\t", " \t ", "   "]
 LEADS = ["", "", "", " ", "\t", "    "]
+# scheme + start of the rest: letters, digits, '+', '-', '.' after a first letter (Spec.TtlSyntax.has_scheme)
+ABS_SCHEMES = ["svn+ssh://h.org/r/", "git+https://g.org/", "android-app://a.b/", "x-types:", "view-source:http://e/",
+               "chrome-extension://abc/", "a1.b-c+d:", "urn:", "mailto:a@b.org?", "h2:", "Z39.50s://z/"]
 
 
 class Gen(object):
@@ -446,6 +452,9 @@ class Gen(object):
                 loc = "typ"
             return ("P", p, loc)
         if f == "A":
+            if r.random() < 0.2:
+                # every scheme of RFC 3986 makes the reference absolute, with or without a base in force
+                return ("A", r.choice(ABS_SCHEMES) + kind)
             return ("A", self.pick(["http://e/" + kind, "http://x.org/a/b#c", "https://s.org/" + kind, "http://e/a,b",
                                     "http://e/a;b", "http://e/x.", "http://é.org/"],
                                    ["urn:a:" + kind, "mailto:a@b.org", "ftp://f/" + kind] if env["base"] else
@@ -472,7 +481,8 @@ class Gen(object):
         if k < 0.45 and "xsd" in env["prefixes"]:
             dt = ("P", "xsd", r.choice(["integer", "string", "date", "decimal"]))
         elif k < 0.8:
-            dt = ("A", self.pick(["http://e/dt", XSD + "int", "http://e/types#t", RDF + "HTML"],
+            dt = ("A", self.pick(["http://e/dt", XSD + "int", "http://e/types#t", RDF + "HTML", "x-types:semver",
+                                  "git+https://g.org/dt", "urn:x-dt:1", "a1.b-c+d:t"],
                                  ["http://e/a@b", "http://e/xsd:foo", "urn:dt:x"]))
         elif env["base"] and r.random() < 0.5:
             dt = ("R", self.pick(["dt", "types/t"], ["#t", "/t"]))
